@@ -36,6 +36,7 @@ def main(tier):
     chk.run("R-LOOPCOVER", CR.loopcover, cx.cpp, methods=("ConvertToBcd",), floor=64)
     chk.run("R-CPPRANGE", CR.cpprange, cx.cpp, floor=2000)
     chk.run("R-MIRROR", C.mirror, cx.cpp, floor=8)
+    chk.run("R-SHIFTOPERAND", C.shiftoperand, cx.cpp, floor=9)
     chk.run("R-PATHEND", RR.pathend, cx.repo, floor=2, modules=("compiler/front_end/write_inference.py",))
     chk.run("R-BYTEPATH", C.bytepath, cx.repo, floor=70, side="write")
     return chk.finish()
